@@ -42,11 +42,15 @@ TECHNIQUE = ('exhaustive enumeration of dependency DAGs x focus sets x model '
              'states, extract() executed on the real model, differential '
              'evaluation of original vs extracted model along input-change '
              'histories')
-LEVEL_TEXT = ('For every DAG on 4 (thorough 5) cells in four reference '
-              'styles and every focus subset, before and after evaluation, '
-              'the real extract() is run and the extracted model is '
-              'evaluated side by side with the original along input-change '
-              'histories; closure and non-interference are checked.')
+LEVEL_TEXT = ('For every DAG on 4 (thorough 5) cells in sixteen reference '
+              'styles (direct, ranges, two sheets, defined names, named '
+              'ranges over inputs / formulas / a cell set after loading / a '
+              'quoted sheet, gaps, absent references ...) and every focus '
+              'subset, before and after evaluation, the real extract() is '
+              'run and the extracted model is evaluated side by side with '
+              'the original along input-change histories, and extracted once '
+              'more after its history; closure and non-interference are '
+              'checked.')
 LEVEL_NOTE = ('Every step runs the implementation; the only model is the '
               'generated graph used for the closure requirement.  Bounded: '
               'n <= 4 (5) cells, two alternative values per input.')
